@@ -72,9 +72,28 @@ func configs(quick bool) []Cfg {
 		Tokens:   [][]string{{"100"}, {"100"}},
 		Deposits: []int64{1, 3}, DepCap: minDeposit + 3, Toggle: true,
 		Dts: []int64{1, 2}, Depth: 6}
+	// 8. bootstrap window: no current group, first group waiting for execution; signing works but costs
+	//    nothing, so the real packet cost is the base fee: balances {base, base+phantom route-1, ample, base-1}.
+	inc := Cfg{Name: "incoming-only", Incoming: true, InitDE: 8,
+		Tunnels: []TunnelCfg{
+			{Route: "tss", Signals: sigs(100, 300, 300, 300), Interval: 2, Balance: baseFee},
+			{Route: "tss", Signals: sigs(100, 300, 300, 300), Interval: 2, Balance: tssTotal - 1},
+			{Route: "tss", Signals: sigs(100, 300, 300, 300), Interval: 2, Balance: 5 * tssTotal},
+			{Route: "tss", Signals: sigs(100, 300, 300, 300), Interval: 2, Balance: baseFee - 1}},
+		Signals: both, Init: []string{"100", "100"},
+		Tokens:  [][]string{{"100", "105"}, {"100"}},
+		Trigger: true, Dts: []int64{1, 2}, Depth: 4}
 	if quick {
-		return []Cfg{dev, itv, fund, fundBase, non, nog, mix, dpo}
+		return []Cfg{dev, itv, fund, fundBase, non, nog, mix, dpo, inc}
 	}
+	i2 := inc
+	i2.Funds = []int64{1, baseFee}
+	i2.FundCap = 2 * tssTotal
+	i2.Tunnels = inc.Tunnels[:2]
+	i2.InitDE = 3
+	i2.DEAdd, i2.DECap = 1, 3
+	i2.Depth = 6
+	out = append(out, inc, i2)
 	d2 := dpo
 	d2.Tokens = [][]string{{"100", "105"}, {"100"}}
 	d2.Trigger = true
